@@ -72,6 +72,7 @@ int main(int argc, char** argv) {
   ReplayCtx ctx = replay_setup(argc, argv);
   if (const char* e = std::getenv("VF_P")) g_p = std::atoi(e);
   if (std::getenv("VF_LOGMAT")) g_log_matrices = true;
+  if (std::getenv("VF_LOGREPS")) g_log_reps = true;
 #ifndef VF_Z2
 #define VF_Z2 1
 #endif
